@@ -4,6 +4,7 @@ pub mod body;
 pub mod families;
 pub mod mb;
 pub mod opcensus;
+pub mod stateful;
 
 #[derive(Clone, Debug)]
 pub struct Member {
